@@ -425,6 +425,102 @@ Section DomainExtends.
   Qed.
 End DomainExtends.
 
+(* ---- C02 on the extended domain: format-then-parse of the LEXICAL formatter for values of lvalue_ok
+   (prefix-only atoms, names with keyword characters) under the explicit unambiguity conditions ---- *)
+Section RoundTrip2.
+  Variable L : lfmt.
+  Variable ia : N -> bool.
+  Local Notation C := (compile L).
+  Hypothesis Hterm : lex_term_ok L ia = true.
+  Hypothesis Hitems : lex_items_ok L = true.
+  Hypothesis Hsp : lex_space_ok L ia = true.
+  Hypothesis Hclean : lex_clean_ok L ia = true.
+  Hypothesis Hatoms : lex_clean_atoms_ok L ia = true.
+  Hypothesis Hbl : budget_left_nonident ia L = true.
+
+  Local Notation strip := (LexSpec.strip L).
+  Local Notation f0 := (f0 L).
+
+  Lemma strip_term2 sp : allws L sp = true -> forall t, lterm_ok ia L t = true -> strip (lex_fmt_term_g L sp t) = f0 t.
+  Proof.
+    intros Hws. destruct (space_all L ia Hsp) as [_ [_ [_ [Hpre [Hcon [Hcop [_ [Hset _]]]]]]]].
+    rewrite forallb_forall in Hpre, Hcon, Hcop, Hset.
+    induction t as [p n | c ts IHts | l ts rb IHts | c s p IHs IHp] using lterm_ind2; intros Hok.
+    - cbn [lterm_ok] in Hok. rewrite !andb_true_iff in Hok. destruct Hok as [[Hp Hid] _]. apply str_in_In in Hp.
+      unfold LexSpec.f0. cbn [lex_fmt_term_g]. rewrite (LexPStrip.strip_app L).
+      rewrite (LexPStrip.strip_nows L p) by (apply Hpre; exact Hp).
+      now rewrite (LexPStrip.strip_nows L n) by (apply (ident_nows L ia Hsp); exact Hid).
+    - cbn [lterm_ok] in Hok. rewrite !andb_true_iff in Hok. destruct Hok as [[Hc _] Hts]. apply str_in_In in Hc.
+      unfold LexSpec.f0. cbn [lex_fmt_term_g]. unfold ltemplate_compound. rewrite !(LexPStrip.strip_app L).
+      rewrite (strip_components L ia Hsp); auto.
+      2:{ rewrite Forall_forall in *. rewrite forallb_forall in Hts. intros t Ht. apply IHts; auto. }
+      rewrite (LexPStrip.strip_nows L (fst (l_compound_brackets L))) by (apply (single_nows L ia Hsp (cl L)); cbn; auto 15).
+      rewrite (LexPStrip.strip_nows L (snd (l_compound_brackets L))) by (apply (single_nows L ia Hsp (cr L)); cbn; auto 15).
+      rewrite (LexPStrip.strip_nows L (l_separator L)) by (apply (single_nows L ia Hsp (sep L)); cbn; auto 15).
+      rewrite (LexPStrip.strip_nows L c) by (apply Hcon; exact Hc). now rewrite (strip_allws L sp Hws).
+    - cbn [lterm_ok] in Hok. rewrite !andb_true_iff in Hok. destruct Hok as [[Hc _] Hts]. apply pair_in_In in Hc.
+      specialize (Hset _ Hc). cbn [fst snd] in Hset. apply andb_true_iff in Hset as [Hl Hr].
+      unfold LexSpec.f0. cbn [lex_fmt_term_g]. unfold ltemplate_compound_set. rewrite !(LexPStrip.strip_app L).
+      rewrite (strip_components L ia Hsp); auto.
+      2:{ rewrite Forall_forall in *. rewrite forallb_forall in Hts. intros t Ht. apply IHts; auto. }
+      now rewrite (LexPStrip.strip_nows L l Hl), (LexPStrip.strip_nows L rb Hr).
+    - cbn [lterm_ok] in Hok. rewrite !andb_true_iff in Hok. destruct Hok as [[Hc Hs] Hp]. apply str_in_In in Hc.
+      unfold LexSpec.f0. cbn [lex_fmt_term_g]. unfold ltemplate_statement. rewrite !(LexPStrip.strip_app L).
+      fold (LexSpec.f0 L). rewrite IHs, IHp by assumption.
+      rewrite (LexPStrip.strip_nows L (fst (l_statement_brackets L))) by (apply (single_nows L ia Hsp (sl L)); cbn; auto 15).
+      rewrite (LexPStrip.strip_nows L (snd (l_statement_brackets L))) by (apply (single_nows L ia Hsp (sr L)); cbn; auto 15).
+      rewrite (LexPStrip.strip_nows L c) by (apply Hcop; exact Hc). rewrite (strip_allws L sp Hws). reflexivity.
+  Qed.
+
+  Lemma strip_sentence2 s : lsentence_ok2 ia L s = true ->
+    strip (lex_fmt_sentence L s) = text0 L (NSentence s).
+  Proof.
+    intros Hok. destruct (space_all L ia Hsp) as [_ [Hft [Hfi [_ [_ [_ [Hpun _]]]]]]].
+    unfold lsentence_ok2 in Hok. rewrite !andb_true_iff in Hok. destruct Hok as [[[Ht Hq] Hst] Htv].
+    apply str_in_In in Hq. rewrite forallb_forall in Hpun.
+    unfold lex_fmt_sentence, text0. cbn [lex_fmt_g]. unfold lex_fmt_sentence_g.
+    rewrite (LexPStrip.strip_app L). rewrite (strip_term2 _ Hft _ Ht). f_equal.
+    rewrite ljoin_lest3_nil. unfold ljoin_lest. cbn [map concat]. rewrite !(LexPStrip.strip_app L).
+    rewrite (LexPStrip.strip_nows L (ls_punct s)) by (apply Hpun; exact Hq). f_equal. rewrite app_nil_r.
+    assert (Hs : strip (ls_stamp s) = ls_stamp s) by (apply (LexPStrip.strip_nows L); now apply (stamp_nows_ok L ia Hsp)).
+    assert (Htt : strip (lex_fmt_truth L (ls_truth s)) = lex_fmt_truth L (ls_truth s))
+      by (apply (LexPStrip.strip_nows L); now apply (truth_nows L ia Hsp)).
+    destruct (ls_stamp s) as [|c st]; destruct (lex_fmt_truth L (ls_truth s)) as [|d tt];
+      cbn [app]; rewrite ?(LexPStrip.strip_app L), ?(strip_allws L _ Hfi), ?Hs, ?Htt; cbn [app]; try reflexivity.
+  Qed.
+
+  Theorem strip_fmt2 v : lvalue_ok ia L v = true -> strip (lex_fmt L v) = text0 L v.
+  Proof.
+    destruct (space_all L ia Hsp) as [_ [Hft [Hfi _]]].
+    destruct v as [t | s | k]; cbn [lvalue_ok]; intros Hok.
+    - apply andb_true_iff in Hok as [Hok _]. now apply strip_term2.
+    - now apply strip_sentence2.
+    - apply andb_true_iff in Hok as [Hs Hb].
+      unfold lex_fmt, text0. cbn [lex_fmt_g]. unfold lex_fmt_task_g. cbv zeta.
+      change (lex_fmt_sentence_g L (l_format_terms L) (l_format_items L) (lt_sentence k)) with (lex_fmt_sentence L (lt_sentence k)).
+      change (lex_fmt_sentence_g L [] [] (lt_sentence k)) with (text0 L (NSentence (lt_sentence k))).
+      rewrite <- (strip_sentence2 _ Hs).
+      assert (Hbud : strip (lex_fmt_budget L (lt_budget k)) = lex_fmt_budget L (lt_budget k))
+        by (apply (LexPStrip.strip_nows L); now apply (budget_nows L ia Hsp)).
+      destruct (lex_fmt_sentence L (lt_sentence k)) as [|c stxt] eqn:E.
+      + cbn [LexSpec.strip filter]. exact Hbud.
+      + rewrite !(LexPStrip.strip_app L), Hbud, (strip_allws L _ Hfi). cbn [app].
+        destruct (strip (c :: stxt)); [now rewrite app_nil_r | reflexivity].
+  Qed.
+
+  (* C02 for the extended domain *)
+  Theorem lex_roundtrip2 v :
+    lvalue_ok ia L v = true -> unamb_top L v -> lex_parse ia L (lex_fmt L v) = LOk v.
+  Proof.
+    intros Hv Hun. destruct (space_all L ia Hsp) as [Hrm _].
+    unfold lex_parse, lex_parse_fuel, idealize_env. change (c_fmt C) with L. rewrite Hrm.
+    change (filter (fun c => negb (space_for_parse L c)) (lex_fmt L v)) with (strip (lex_fmt L v)).
+    rewrite (strip_fmt2 v Hv).
+    apply (parse_env_text0_2 L ia Hterm Hitems Hclean Hatoms Hbl); auto.
+    rewrite <- (strip_fmt2 v Hv). unfold lex_fuel. pose proof (strip_length L (lex_fmt L v)). lia.
+  Qed.
+End RoundTrip2.
+
 (* ================================================================================== *)
 (* 3. the lexical value of an enum value: domain, unambiguity, whitespace               *)
 (* ================================================================================== *)
@@ -898,6 +994,18 @@ Section AgreeValue.
     - rewrite unamb_top_of. exact (lex_unamb_of_enum ia E L Hag _ [] [] Hshape Hu).
   Qed.
 
+  (* the formatter route to the same result: the enum formatter prints lex_fmt L (lex_of_narsese v) (part 1), and
+     the lexical format-then-parse round trip holds on the extended domain (part 2) *)
+  Theorem lex_parse_fmt_via_lex_fmt v : same_layout E L = true ->
+    wf_value ia E v = true -> vals_ok F in01 v = true ->
+    fmt_narsese F fshow E v = lex_fmt L (Readme.lex_of_narsese F fshow E v) /\
+    lex_parse ia L (lex_fmt L (Readme.lex_of_narsese F fshow E v)) = LOk (Readme.lex_of_narsese F fshow E v).
+  Proof.
+    intros Hsl Hw Hv. destruct av_parts as (_ & _ & Hlt & _ & Hit & Hsp & Hcl & Hat & Hb & _).
+    destruct (enum_value_in_domain v Hw Hv) as [Hd Hu].
+    split; [now apply fmt_narsese_is_lex_fmt|]. now apply (lex_roundtrip2 L ia Hlt Hit Hsp Hcl Hat Hb).
+  Qed.
+
   (* C03, lexical pipeline, whole values: the lexical parser reads the enum formatter's text of a well-formed
      value v -- and every text with the same whitespace-free form -- as lex_of_narsese v; folding returns v *)
   Theorem lex_pipeline_fmt v s :
@@ -1202,6 +1310,17 @@ Example ex_value_hyps :
           [(FORMAT_ASCII, LEX_ASCII); (FORMAT_LATEX, LEX_LATEX)] = true /\
   vocab_ok LEX_ASCII std_alnum (Readme.lex_of_narsese str toy_show FORMAT_ASCII ex_value_task) = false /\
   vocab_ok LEX_ASCII std_alnum (Readme.lex_of_narsese str toy_show FORMAT_ASCII ex_value_term) = false.
+Proof. vm_compute. repeat split; reflexivity. Qed.
+
+(* Han: the enum formatter and the lexical formatter lay a sentence out differently (the enum formatter writes
+   `space.format_terms` = "" before the stamp / truth of a sentence, the lexical formatter `space.format_items`
+   = " "): `预算 a。现在` vs `预算 a。 现在`; the two texts differ by whitespace only *)
+Example ex_han_layout_differs :
+  let v : narsese str := NTask (SJudgement (TName Word [97]%N) TruthEmpty Present, BudgetEmpty) in
+  fmt_narsese str toy_show FORMAT_HAN v = [39044; 31639; 32; 97; 12290; 29616; 22312]%N /\
+  lex_fmt LEX_HAN (Readme.lex_of_narsese str toy_show FORMAT_HAN v) = [39044; 31639; 32; 97; 12290; 32; 29616; 22312]%N /\
+  idealize_env (compile LEX_HAN) (fmt_narsese str toy_show FORMAT_HAN v) =
+  idealize_env (compile LEX_HAN) (lex_fmt LEX_HAN (Readme.lex_of_narsese str toy_show FORMAT_HAN v)).
 Proof. vm_compute. repeat split; reflexivity. Qed.
 
 (* re-computed: the text, the lexical value, and the common result of the two pipelines *)
